@@ -200,59 +200,55 @@ def r3(ctx):
             bad.append((f"len{ln}", f"Pos::from_ascii_bytes accepts a {ln}-byte string: {T.show(got)}"))
     ctx.bulk("Pos::from_ascii_bytes", n, bad, "square parser accepts the wrong set of strings", sample={"strings": n, "exhaustive_two_byte": ctx.tier == "thorough"})
 
-    # move parser shape (Pos::from_ascii_bytes kept opaque)
-    pkey = key
+    # move parser: the extracted summary (square parser inlined) evaluated on strings of every length 0..7, on every byte in the separator
+    # position, and on valid / invalid squares in both positions; compared with the definition "e2e4" | "e2-e4"
     mkey = P.find_fn("ChessMove::from_ascii_bytes", "chess_movegen")
-    eng2 = T.Engine(P, opaque={pkey})
+    ctx.used_body(mkey)
+    pkey = key
+    eng2 = T.Engine(P, opaque={pkey})           # the square parser stays a symbol; its table was decided just above and is substituted below
     mleaves = table(ctx, eng2, mkey)
     ms = param(P, mkey, 0)
-    shapes = {}
-    ok_shape = True
+    move_adt = P.find_adt("ChessMove", "chess_movegen")
 
-    def len_of(cond):
-        for t_, v in cond:
-            if t_[0] == "bin" and t_[1] == "Eq" and v == 1:
-                a, b = t_[2], t_[3]
-                if a[0] == "len" and T.is_const(b):
-                    return b[1]
-                if b[0] == "len" and T.is_const(a):
-                    return a[1]
+    def apps(name, args):
+        if name == pkey and len(args) == 1:
+            a_ = args[0][1] if args[0][0] == "refv" else args[0]
+            if a_[0] == "array" and all(T.is_const(e) for e in a_[1]):
+                return pos_of(a_[1][0][1], a_[1][1][1]) if len(a_[1]) == 2 else OPT_NONE
         return None
 
-    for lf in mleaves:
-        if lf.ret[0] == "panic":
-            ok_shape = False
-            continue
-        if lf.ret[0] == "adt" and lf.ret[2] == "Some":
-            shapes[len_of(lf.cond)] = (lf, lf.ret[3][0])
-        elif lf.ret != OPT_NONE:
-            ok_shape = False
-    for ln, dash in ((5, True), (4, False)):
-        if ln not in shapes:
-            ctx.ob(f"move shape len {ln}", False, f"the move parser has no accepting path for {ln}-byte strings", site=P.body(mkey).get("def_span"))
-            continue
-        lf, mv = shapes[ln]
-        conds = dict((T.show(t), v) for t, v in lf.cond)
-        dash_ok = any(t[0] == "cindex" and t[2] == 2 and v == 45 for t, v in lf.cond) == dash
-        def square_arg(term):
-            # (Pos::from_ascii_bytes(&[s[i], s[j]]) as Some).0 -> (i, j)
-            x = term
-            if x[0] == "vfield" and x[2] == "Some":
-                x = x[1]
-            if x[0] == "app" and x[1].endswith("Pos::from_ascii_bytes"):
-                a = x[2][0]
-                a = a[1] if a[0] == "refv" else a
-                if a[0] == "array" and len(a[1]) == 2 and all(e[0] == "cindex" for e in a[1]):
-                    return tuple(e[2] for e in a[1])
-            return None
-        src, dst, piece = mv[3] if mv[0] == "adt" and len(mv[3]) == 3 else (None, None, None)
-        got = (square_arg(src) if src else None, square_arg(dst) if dst else None, piece)
-        want = ((0, 1), (3, 4) if ln == 5 else (2, 3), OPT_NONE)
-        ctx.ob(f"move shape len {ln}", got == want and dash_ok, f"{ln}-byte move: source from bytes {got[0]}, dest from bytes {got[1]}, piece {T.show(got[2]) if got[2] else None}, dash test {dash_ok}; expected {want}",
-               site=P.body(mkey).get("def_span"), sample={"source_bytes": got[0], "dest_bytes": got[1], "dash_at_2": dash})
-    other_accept = [k for k in shapes if k not in (4, 5)]
-    ctx.ob("move lengths", not other_accept and ok_shape, f"the move parser accepts lengths {sorted(map(str, shapes))} or can panic", site=P.body(mkey).get("def_span"),
-           sample={"accepted_lengths": sorted(map(str, shapes))})
+    def want_move(bs):
+        if len(bs) == 4:
+            sq = (bs[0:2], bs[2:4])
+        elif len(bs) == 5 and bs[2] == 45:
+            sq = (bs[0:2], bs[3:5])
+        else:
+            return OPT_NONE
+        a_, b_ = pos_of(*sq[0]), pos_of(*sq[1])
+        if a_ == OPT_NONE or b_ == OPT_NONE:
+            return OPT_NONE
+        return some(("adt", move_adt, "ChessMove", (a_[3][0], b_[3][0], OPT_NONE)))
+    tests = []
+    good = [b"e2", b"a1", b"h8", b"C7", b"g1"]
+    junk = [b"i2", b"e9", b"e0", b"\x00\x00", b"2e", b"--", b"e-"]
+    for ln in range(0, 8):
+        tests.append(bytes((b"e2e4e5e6")[:ln]))
+    for x in good + junk:
+        for y in good + junk:
+            tests.append(x + y)
+            tests.append(x + b"-" + y)
+    for sep in range(256):
+        tests.append(b"e2" + bytes([sep]) + b"e4")
+    tests += [b"e2e4q", b"e7e8q", b"e2-e4q", b"e2--e4", b"-e2e4", b"e2e4-"]
+    bad, n = [], 0
+    for bs in tests:
+        arr = ("array", tuple(T.I(c, "u8") for c in bs))
+        got = T.eval_table(eng2, mleaves, {ms: ("refv", arr), ("obj", ms): arr, "__apps__": apps})
+        n += 1
+        w_ = want_move(list(bs))
+        if got != w_ and len(bad) < 8:
+            bad.append((repr(bs), f"ChessMove::from_ascii_bytes({bs!r}) = {T.show(got)[:100]}, expected {T.show(w_)[:100]}"))
+    ctx.bulk("move parser", n, bad, "the move parser does not accept exactly `<square><square>` and `<square>-<square>`", sample={"strings": n})
     fs = P.find_fn("ChessMove as core::str::traits::FromStr>::from_str", "chess_movegen")
     calls = [t["f"].get("fn") for _, t in P.calls(fs)]
     ctx.ob("FromStr for ChessMove", mkey in calls, f"ChessMove::from_str does not go through from_ascii_bytes: {calls}")
